@@ -3,6 +3,8 @@ import XjsModel.Proofs.PrinterComments
 import XjsModel.Proofs.ParserAnchorPass
 import XjsModel.Proofs.CommentsHead
 import XjsModel.Proofs.LexerTrivia
+import XjsModel.Proofs.CommentsChain
+import XjsModel.Props.C10
 /-
   C15 — The pretty printer keeps statement-level comments; compact output has none.
 
@@ -99,6 +101,58 @@ theorem block_keeps_its_braces (cfg : PCfg) (st : PS) (s : Stmt) (st' : PS)
 theorem replay_starts_with_the_first_token (s : Stmt) (h : s.postfixBare = true) :
     ∃ rest, s.cmts = headCmts s.firstTok ++ rest := s.cmts_head h
 
+/-! ### the links put together: lexed and parsed input -/
+
+theorem lookup_mem {β : Type} {l : List (TokType × β)} {t : TokType} {v : β} (h : lookup l t = some v) : (t, v) ∈ l := by
+  unfold lookup at h
+  split at h
+  · rename_i kv hk
+    have hm := List.mem_of_find?_eq_some hk
+    have he := List.find?_some hk
+    cases h
+    have : kv.1 = t := by simpa using he
+    rw [← this]; exact hm
+  · cases h
+
+/-- in the built-in table `++` and `--` are the only postfix operators -/
+theorem builtin_postfix_operators_are_updates (cfg : PCfg) (h : cfg.infixFns = baseInfixFns) : PostfixIsUpdate cfg := by
+  intro ty hl
+  rw [h] at hl
+  have hm := lookup_mem hl
+  simp [baseInfixFns] at hm
+  rcases hm with h | h <;> simp [h]
+
+/-! the default configuration is an instance -/
+example : PostfixIsUpdate {} := builtin_postfix_operators_are_updates {} rfl
+
+/-- LEXER: a token that carries entries but does not follow a line break stands at the end of the input (or on a NUL
+    byte): it is no `++` / `--` — for every token of every source -/
+theorem lexed_tokens_are_quiet (src : Bytes) : ∀ t ∈ lexAll src, t.quiet := by
+  intro t ht
+  unfold lexAll at ht
+  rw [C10.tokens_of_requests] at ht
+  obtain ⟨st, _, rfl⟩ := List.mem_map.mp ht
+  exact nextToken_quiet st
+
+/-- PARSER: no postfix `++` / `--` node follows a line break, and its token is a postfix operator of the table -/
+theorem postfix_operators_stay_on_the_line (cfg : PCfg) (toks : List Token) (r : ParseResult)
+    (h : parseProgram cfg toks = some r) : r.prog.pfOk cfg = true := pf_parseProgram cfg toks r h
+
+/-- PARSER (provenance): whatever holds of every input token (and of the end-of-input repeats) holds of every token
+    stored in the tree — the tree's tokens are the input's tokens as full records, trivia included -/
+theorem tree_tokens_are_input_tokens (cfg : PCfg) (P : Token → Prop) (hc : Closed P) (toks : List Token) (r : ParseResult)
+    (h : parseProgram cfg toks = some r) (ht : ∀ t ∈ toks, P t) : r.prog.allT P := prov_parseProgram cfg P hc toks r h ht
+
+/-- TOGETHER, for every source text, every mode and interceptor chain, with the built-in postfix operators, whatever
+    errors are reported: in every statement list of the tree, at any depth, what the pretty printer replays for a
+    statement begins with the entries of the statement's first token (`headsFirst`, `Proofs/CommentsChain`) — the
+    token the parser stood on (`statement_starts_at_the_cursor`), whose entries are those of the text in front of it
+    (`token_carries_the_entries_of_its_gap`) -/
+theorem statement_comments_lead_their_statement (cfg : PCfg) (hpf : PostfixIsUpdate cfg) (src : Bytes) (r : ParseResult)
+    (h : parseProgram cfg (lexAll src) = some r) : r.prog.headsFirst :=
+  StmtList.headsFirst_of hpf r.prog (pf_parseProgram cfg _ r h)
+    (prov_parseProgram cfg Token.quiet quiet_closed _ r h (lexed_tokens_are_quiet src))
+
 /-! Non-vacuity: the comment on a statement's first token is written in pretty mode and logged -/
 example :
     let t : Token := { type := .ident, lit := [97], sl := 1, sc := 0, el := 1, ec := 1, nl := true, comments := [[32, 104, 105]] }
@@ -123,3 +177,8 @@ end Xjs.C15
 #print axioms Xjs.C15.statement_starts_at_the_cursor
 #print axioms Xjs.C15.block_keeps_its_braces
 #print axioms Xjs.C15.replay_starts_with_the_first_token
+#print axioms Xjs.C15.builtin_postfix_operators_are_updates
+#print axioms Xjs.C15.lexed_tokens_are_quiet
+#print axioms Xjs.C15.postfix_operators_stay_on_the_line
+#print axioms Xjs.C15.tree_tokens_are_input_tokens
+#print axioms Xjs.C15.statement_comments_lead_their_statement
